@@ -33,7 +33,7 @@ type c14Fmt struct {
 }
 
 func checkC14(c *Ctx) {
-	c.rule = "(1) text operations through the element API: for texts over ASCII/CJK/astral/combining characters, 长度 == 字数 == len(字符组) == number of code points; 取样(i,j) for every pair in [-(n+2), n+2]^2 (all pairs for n<=10, random beyond): inside 1<=i<=j<=n it must equal characters i..j of 字符组 joined, elsewhere any result must be valid UTF-8 (never half a character); every pair is repeated on a shadow text of equally many distinct one-byte characters and must select the same positions with the same outcome kind (counting must not depend on byte lengths); 分隔 then 拼接 with the same separator is the identity; the same laws through Zn programs; (2) formatting ‹template› % ‹list› through Zn programs: templates mixing literal text and the documented placeholders {} {#} {#.N} {#+} {#.N%} {#.NE} (N in 0..40) with doubles from a boundary pool and random; expected text built from Python %-formatting; templates that must be errors (count mismatch, numeric directive on a non-number, unbalanced/nested braces, directive not starting with #, # followed by other characters, absurd precision). distinct_nontrivial = distinct (family, text shape / directive sequence, outcome)"
+	c.rule = "(1) text operations through the element API: for texts over ASCII/CJK/astral/combining characters, 长度 == 字数 == len(字符组) == number of code points; 取样(i,j) for every pair in [-(n+2), n+2]^2 (all pairs for n<=10, random beyond): inside 1<=i<=j<=n it must equal characters i..j of 字符组 joined, elsewhere any result must be valid UTF-8 (never half a character); every pair is repeated on a shadow text of equally many distinct one-byte characters and must select the same positions with the same outcome kind (counting must not depend on byte lengths); 分隔 then 拼接 with the same separator is the identity; the same laws through Zn programs; (2) formatting ‹template› % ‹list› through Zn programs: templates mixing literal text and the documented placeholders {} {#} {#.N} {#+} {#.N%} {#.NE} (N in 0..40) with doubles from a boundary pool and random; expected text built from Python %-formatting; {} must insert exactly what 显示 prints for a value of any kind (objects, types, methods, exceptions, nested collections); templates that must be errors (count mismatch, numeric directive on a non-number, unbalanced/nested braces, directive not starting with #, # followed by other characters, absurd precision). distinct_nontrivial = distinct (family, text shape / directive sequence, outcome)"
 	c.assumptions = []string{"Python % formatting is the reference for the numeric directives", "{} is exercised with texts, booleans, 空 and small integers only (display spelling of doubles is unspecified)", "percent rendering is judged only where x*100 in double and exact decimal scaling agree"}
 	rng := c.Rand("c14")
 	py, err := startPyOracle(c.Root)
@@ -446,6 +446,26 @@ func checkC14(c *Ctx) {
 		for _, x := range []float64{math.Inf(1), math.Inf(-1), math.NaN()} {
 			cases = append(cases, c14Fmt{tmpl: d, args: []Val{Num(x)}, family: "nonfinite/" + d})
 		}
+	}
+	// {} inserts the display form of ANY element: what （显示：X） prints for X is what “{}” % 【X】
+	// must produce, for values of every kind (no oracle for the form itself is needed)
+	{
+		vals := []string{"物", "型", "法", "显示", "（新建异常：“x”）", "异常", "【1，物，【“k” = 法】】", "【“a” = 物】", "【】", "【=】", "空", "真", "“文”", "3", "-0.5", "【1，【2，【3】】】", "以物（取）", "物之甲"}
+		dreqs := []Req{}
+		for _, v := range vals {
+			src := "定义型：\n\t其甲 = 1\n\t如何取？\n\t\t输出 其甲\n如何法？\n\t输出 1\n令物 =（新建型）\n（显示：" + v + "）\n输出 “<{}>{}” % 【" + v + "，" + v + "】\n"
+			dreqs = append(dreqs, execReq(src))
+		}
+		c.runBatches(dreqs, 20, func(i int, req *Req, resp *Resp) {
+			c.Eval()
+			c.Count("display_form_placeholders_checked", 1)
+			c.Nontrivial("display-form|" + vals[i] + "|" + resp.Kind)
+			shown := strings.TrimSuffix(resp.Display, "\n")
+			want := "<" + shown + ">" + shown
+			if resp.Kind != "value" || resp.Val == nil || resp.Val.T != "text" || resp.Val.S() != want {
+				c.Violation("format:display-form:"+vals[i], fmt.Sprintf("“<{}>{}” %% 【%s，%s】: outcome %s %s, but （显示：%s） prints %q, so the text must be %q", vals[i], vals[i], resp.Kind, clip(resp.Outcome(), 160), vals[i], shown, want), map[string]interface{}{"req": req})
+			}
+		})
 	}
 	freqs := make([]Req, len(cases))
 	for i, cs := range cases {
